@@ -69,8 +69,22 @@ _PARTIAL_RE = [re.compile(p) for p in (
 )]
 
 
+# A `static X: LazyLock<T> = LazyLock::new(|| ..)` is a constant computed on first use: the initialiser of a static cannot capture
+# anything, so its value does not depend on which call came first.  (OnceLock::get_or_init / set can store a value derived from
+# the first caller's arguments and stay classified as effects.)
+_WRITE_ONCE = re.compile(r'^std::sync::(lazy_lock::)?LazyLock::(new|force|deref)$|^<std::sync::(lazy_lock::)?LazyLock<.*> as core::ops::deref::Deref>::deref$'
+                         r'|^std::sync::lazy_lock::<impl core::ops::deref::Deref for std::sync::(lazy_lock::)?LazyLock<.*>>::deref$')
+# Hash collections: look-ups are functions of their arguments; anything that walks the table exposes the per-process random order.
+_HASH = re.compile(r'^std::collections::hash::(map|set)::')
+_HASH_WALK = re.compile(r'::(iter|iter_mut|keys|values|values_mut|into_keys|into_values|drain|retain|extract_if|into_iter|difference|union|intersection|symmetric_difference)$')
+
+
 def is_effectful(path):
     p = strip_generics(path or '')
+    if _WRITE_ONCE.search(p) or _WRITE_ONCE.search(path or ''):
+        return False
+    if _HASH.search(p):
+        return bool(_HASH_WALK.search(p))
     return any(r.search(p) for r in _EFFECT)
 
 
@@ -115,6 +129,6 @@ def classify(path, resolved=None, local_paths=()):
             m = re.match(r'^<.* as ([^>]+?)>::', c)
             if m:
                 c = m.group(1) + '::'
-        if c.startswith(PURE_PREFIXES):
+        if c.startswith(PURE_PREFIXES) or _HASH.search(c) or _WRITE_ONCE.search(c) or _WRITE_ONCE.search(cand):
             return 'pure'
     return 'unknown'
